@@ -1125,6 +1125,10 @@ func (rg *Rig) Run(sc *Script, r *lib.RNG, hb *lib.Heartbeat) Result {
 	}
 	<-cdone
 	<-sdone
+	// the readers are gone: end the control-frame writers (they keep the endpoints, and with them
+	// every recorded octet of the script, reachable)
+	close(ce.ctrl)
+	close(se.ctrl)
 	return res
 }
 
